@@ -349,3 +349,10 @@ pub(super) fn is_macro_stat(input: &str) -> bool {
 
     parse_macro_keyword(ident).is_some_and(is_macro_stat_tok_type)
 }
+
+#[cfg(kani)]
+pub(crate) mod verif {
+    #[allow(clippy::wildcard_imports)]
+    use super::*;
+    include!(concat!(env!("SAS_LEXER_VERIF_DIR"), "/harness/macro.rs"));
+}
